@@ -556,6 +556,10 @@ func (d *dataCloser) Close() error {
 		return err
 	}
 
+	// The message has been terminated: whatever the server answers, closing
+	// again must not start a second exchange.
+	d.closed = true
+
 	d.c.conn.SetDeadline(time.Now().Add(d.c.SubmissionTimeout))
 	defer d.c.conn.SetDeadline(time.Time{})
 
@@ -583,7 +587,6 @@ func (d *dataCloser) Close() error {
 		}
 	}
 
-	d.closed = true
 	return nil
 }
 
